@@ -75,6 +75,25 @@ Theorem c01_handshake (rnd s1 tail : bytes) (i : inp) :
     lenN (hs_c0s0 ++ hs_c1s1 rnd ++ hs_c2s2 s1) = 3073.
 Proof. exact (handshake rnd s1 tail i). Qed.
 
+(* A full session on one connection: the peer's handshake bytes C0/S0, C1/S1, C2/S2 followed
+   IMMEDIATELY by its chunk stream, the whole cut into transport reads in ANY way (the tail of
+   C2/S2 and the first chunk bytes in one read, a read ending k bytes before or after a handshake
+   boundary, 1-byte reads, empty reads): the three handshake reads deliver the handshake intact
+   and consume exactly its 3073 bytes, and the read loop of a Protocol started on what is left of
+   the connection yields exactly the written messages, then a clean io.EOF.  (The code hands the
+   connection from Handshake to Protocol unbuffered -- io.CopyN on the connection itself, bufio
+   only inside Protocol -- and the model does the same: copy_n returns the rest of the transport.) *)
+Theorem c01_handshake_session (rnd s1 : bytes) ms (segs : inp) fuel :
+  length rnd = 1528%nat -> length s1 = 1536%nat -> Forall wf_msg ms ->
+  (length ms < fuel)%nat -> Forall (fun m => (length (m_payload m) + length ms < fuel)%nat) ms ->
+  exists ws, write_all DEFCHUNK ms = map Ok ws /\
+    (flat segs = hs_c0s0 ++ hs_c1s1 rnd ++ hs_c2s2 s1 ++ concat ws ->
+     exists i1 i2 i3,
+       hs_read_c0s0 segs = Ok ([3], i1) /\ hs_read_c1s1 i1 = Ok (hs_c1s1 rnd, i2) /\
+       hs_read_c2s2 i2 = Ok (s1, i3) /\
+       read_all fuel rs0 i3 [] = (ms, E_EOF)).
+Proof. exact (handshake_session rnd s1 ms segs fuel). Qed.
+
 (* ReadMessage never panics: any bytes, any segmentation, any state reachable from NewProtocol
    by earlier reads (rs_ok: every unfinished message has received fewer bytes than announced),
    and every state it returns is reachable again. *)
@@ -110,11 +129,23 @@ Example c01_session_example :
   read_all 10 rs0 (map (fun b => [b]) (wire_of (write_all DEFCHUNK ms))) [] = (ms, E_EOF).
 Proof. vm_compute. reflexivity. Qed.
 
+(* ... and a full session whose third transport read holds the last 2 bytes of C2 AND the whole
+   chunk stream *)
+Example c01_handshake_session_example :
+  let ms := [mkmsg 5 0 9 1 [7; 8; 9]] in
+  let stream := hs_prefix ++ wire_of (write_all DEFCHUNK ms) in
+  let segs := cut [1; 3070; 70000] stream in
+  length segs = 3%nat /\
+  (let* (_, i1) := hs_read_c0s0 segs in let* (_, i2) := hs_read_c1s1 i1 in let* (_, i3) := hs_read_c2s2 i2 in
+   Ok (read_all 10 rs0 i3 [])) = Ok (ms, E_EOF).
+Proof. vm_compute. split; reflexivity. Qed.
+
 Print Assumptions c01_single.
 Print Assumptions c01_session.
 Print Assumptions c01_session_segmented.
 Print Assumptions c01_segmentation.
 Print Assumptions c01_handshake.
+Print Assumptions c01_handshake_session.
 Print Assumptions rtmp_read_total.
 Print Assumptions rtmp_read_reachable.
 Print Assumptions rtmp_initial_reachable.
